@@ -20,6 +20,29 @@ let () =
           let segs = SplitLine.splitparen (chars_of_hex hx) in
           let f = function SplitLine.Flat t -> "F:" ^ hex_of_chars t | SplitLine.Paren t -> "P:" ^ hex_of_chars t in
           Printf.printf "%s\n%!" (String.concat "|" (Stdlib.List.map f segs))
+      | ["RD"; free; omp; ign; n] ->
+          let n = int_of_string n in
+          let lines = Stdlib.List.init n (fun _ -> chars_of_hex (input_line stdin)) in
+          let items = Reader.read_source lines (free = "1") (omp = "1") (ign = "1") in
+          let rec i_of_n = function Datatypes.O -> 0 | Datatypes.S k -> 1 + i_of_n k in
+          let rec i_of_pos = function BinNums.Coq_xH -> 1 | BinNums.Coq_xO p -> 2 * i_of_pos p | BinNums.Coq_xI p -> 2 * i_of_pos p + 1 in
+          let i_of_N = function BinNums.N0 -> 0 | BinNums.Npos p -> i_of_pos p in
+          Stdlib.List.iter (fun it -> match it with
+            | Reader.RLine (t, lab, nm, a, b) ->
+                Printf.printf "L %d %d %d %s %s\n" (i_of_n a) (i_of_n b)
+                  (match lab with None -> -1 | Some l -> i_of_N l)
+                  (match nm with None -> "-" | Some x -> "n" ^ hex_of_chars x) (hex_of_chars t)
+            | Reader.RComment (t, a, b, inl) ->
+                Printf.printf "C %d %d %d x%s\n" (i_of_n a) (i_of_n b) (if inl then 1 else 0) (hex_of_chars t)
+            | Reader.RCpp (t, a, b) -> Printf.printf "P %d %d %s\n" (i_of_n a) (i_of_n b) (hex_of_chars t)) items;
+          Printf.printf "END\n%!"
+      | ["LB"; hx] ->
+          let (lab, rest) = Text.extract_label (chars_of_hex hx) in
+          let (nm, rest2) = Text.extract_construct_name (chars_of_hex hx) in
+          let rec i_of_pos = function BinNums.Coq_xH -> 1 | BinNums.Coq_xO p -> 2 * i_of_pos p | BinNums.Coq_xI p -> 2 * i_of_pos p + 1 in
+          Printf.printf "%s %s | %s %s\n%!"
+            (match lab with None -> "-" | Some BinNums.N0 -> "0" | Some (BinNums.Npos p) -> string_of_int (i_of_pos p))
+            (hex_of_chars rest) (match nm with None -> "-" | Some x -> "n" ^ hex_of_chars x) (hex_of_chars rest2)
       | ["QUIT"] -> Stdlib.raise End_of_file
       | _ -> Printf.printf "ERR\n%!"
     done
